@@ -21,7 +21,7 @@ RULE = (
 ASSUMPTIONS = [
     "cryptography / pycryptodome verification primitives are correct; vf/cborlite.py",
     "inputs are unsigned (the already-signed policies are C09's subject)",
-    "with DER key files a raised exception is counted (F8-viii: hash-eddsa re-reads the key file in text mode) and only produced outputs are judged; with PEM keys signing must succeed",
+    "with DER key files a raised exception is counted (F8-viii: hash-eddsa re-reads the key file in text mode) and only produced outputs are judged; with PEM keys signing must succeed; the key-files shard demands success with DER keys too for every algorithm but hash-eddsa (keys whose DER encoding ends in a white-space or NUL byte)",
     "further protected-header labels would be tolerated and reported (the property says 'carries')",
 ]
 
@@ -162,7 +162,8 @@ def judge(case, acc, ctx):
         rich = bool(named) or any(k in fixed for k in (15, 16, 17, 18, 20, 23))
         classes = [f"alg:{alg}", f"enc:{enc}", f"ctx:{ctxform}", f"route:{route}", f"kid:{kid_class(kid)}"] + (["rich-envelope"] if rich else []) + (["key-name:dotted"] if kname != "signer" else [])
         if raised is not None:
-            if enc == "der":
+            if enc == "der" and (alg == "hash-eddsa" or not case.get("strict_der")):
+                # (hash-eddsa with a DER key file is refused on the unchanged tree: the key file is re-read as text)
                 acc.case(classes=classes + [f"rejected_der:{type(raised).__name__}"])
                 if os.path.exists(out):
                     raise Violation(f"signing raised {type(raised).__name__} but wrote an output file", "no output")
@@ -264,6 +265,7 @@ def plan(ctx):
     per_storm = 3000 if not ctx.thorough else 60000
     for alg in CO.ALGS:
         specs.append({"kind": "storm", "alg": alg, "n": per_storm if alg in CO.CURVE else per_storm // 4})
+    specs.append({"kind": "key-files"})
     return specs
 
 
@@ -282,6 +284,32 @@ def run_shard(ctx, spec):
             storm(ctx, acc, spec["alg"], spec["n"])
         except Violation as v:
             acc.fail("storm", {"alg": spec["alg"]}, v.observed, v.expected, bucket=v.bucket)
+        return acc
+    if spec["kind"] == "key-files":
+        # key FILES of every shape: for each algorithm, keys whose DER encoding ends in a byte that is white space when read as text
+        # (0x09-0x0d, 0x20 - one key in 43) or in 0x00, and whose PEM file carries CRLF line ends / a trailing blank line
+        from cryptography.hazmat.primitives import serialization as _ser
+
+        minimal = {"SUIT_Envelope_Tagged": {"suit-authentication-wrapper": {"SuitDigest": {"suit-digest-algorithm-id": "cose-alg-sha-256"}},
+                                            "suit-manifest": {"suit-manifest-version": 1, "suit-manifest-sequence-number": 3, "suit-common": {}}}}
+        for alg in CO.ALGS:
+            found = {}
+            for _ in range(4000):
+                k = CO.gen_key(alg)
+                last = k.private_bytes(_ser.Encoding.DER, _ser.PrivateFormat.PKCS8, _ser.NoEncryption())[-1]
+                cls = "ws" if last in (9, 10, 11, 12, 13, 32) else "nul" if last == 0 else None
+                if cls and cls not in found:
+                    found[cls] = k
+                if len(found) == 2:
+                    break
+            for cls, k in found.items():
+                case = {"desc": minimal, "alg": alg, "kid": 7, "enc": "der", "ctxform": "path", "route": "main", "key": CO.key_to_hex(k), "strict_der": True}
+                try:
+                    judge(case, acc, ctx)
+                    acc.note(f"der-key-ending-in:{cls}")
+                except Violation as v:
+                    if not any(f["bucket"] == v.bucket for f in acc.failures):
+                        acc.fail("sign", case, v.observed, v.expected, bucket=v.bucket)
         return acc
     route = spec["route"]
     n = spec["n"] if route == "main" else 12
